@@ -55,6 +55,10 @@ BlockTab ==
    descR |-> << D("GET", <<"pdr">>, "", FALSE, "", ""), D("Description", <<>>, "", FALSE, "d1", ""),
                 D("RESP", <<>>, "", FALSE, "obj", "200"), D("PUT", <<"pdr">>, "", FALSE, "", ""), D("Description", <<>>, "", FALSE, "d2", ""),
                 D("RESP", <<"any">>, "", FALSE, "", "404") >>,
+   \* a regex user type with many matching strings, used by the bodies of two resources
+   t7    |-> << D("TYPE", <<"@t7", "regex">>, "", FALSE, "rx2", "") >>,
+   useR1 |-> << D("GET", <<"pr1">>, "", FALSE, "", ""), D("RESP", <<>>, "", FALSE, "objr7", "200") >>,          \* needs t7
+   useR2 |-> << D("GET", <<"pr2">>, "", FALSE, "", ""), D("RESP", <<>>, "", FALSE, "objr7", "200") >>,          \* needs t7
    \* a Description of several lines
    descM |-> << D("GET", <<"pdm">>, "", FALSE, "", ""), D("Description", <<>>, "", FALSE, "d3", ""), D("RESP", <<"any">>, "", FALSE, "", "200") >>,
    \* a union written without blanks, and a type that inherits it through allOf (needs t1 t2; t6 needs t5)
